@@ -20,7 +20,7 @@ open Glm.Hand.C14 Glm.Props.C14.Bridge
 
 theorem flt32_iff_twos_slt (x y : UInt32) (hx : isNaN32 x = false) (hy : isNaN32 y = false) :
     flt32 x y = (toTwos32 x).toBitVec.slt (toTwos32 y).toBitVec := by
-  unfold flt32 toTwos32 sign32 mag32 isNaN32 at *; bv_decide
+  unfold flt32 toTwos32 sign32 mag32 isNaN32 at *; bv_decide (config := { timeout := 180 })
 
 /-- on non-NaN patterns IEEE `<` is `<` of the integer keys -/
 theorem ordKey32_lt_iff (x y : UInt32) (hx : isNaN32 x = false) (hy : isNaN32 y = false) :
@@ -29,7 +29,7 @@ theorem ordKey32_lt_iff (x y : UInt32) (hx : isNaN32 x = false) (hy : isNaN32 y 
 
 theorem feq32_iff_twos_eq (x y : UInt32) (hx : isNaN32 x = false) (hy : isNaN32 y = false) :
     feq32 x y = (toTwos32 x == toTwos32 y) := by
-  unfold feq32 toTwos32 sign32 mag32 isNaN32 at *; bv_decide
+  unfold feq32 toTwos32 sign32 mag32 isNaN32 at *; bv_decide (config := { timeout := 180 })
 
 /-- IEEE `==` (with −0 = +0) is equality of the keys -/
 theorem ordKey32_eq_iff (x y : UInt32) (hx : isNaN32 x = false) (hy : isNaN32 y = false) :
@@ -44,22 +44,22 @@ theorem ordKey32_eq_iff (x y : UInt32) (hx : isNaN32 x = false) (hy : isNaN32 y 
 /-- IEEE nextUp is "the smallest representable value greater than x" -/
 theorem nextUp32_least (x y : UInt32) (hx : isFinite32 x = true) (hy : isNaN32 y = false) :
     flt32 x (nextUp32 x) = true ∧ (flt32 x y = true → fle32 (nextUp32 x) y = true) := by
-  unfold nextUp32 fle32 flt32 feq32 isFinite32 isZero32 sign32 mag32 isNaN32 qNaN32 at *; bv_decide
+  unfold nextUp32 fle32 flt32 feq32 isFinite32 isZero32 sign32 mag32 isNaN32 qNaN32 at *; bv_decide (config := { timeout := 180 })
 
 /-- IEEE nextDown is "the largest representable value smaller than x" -/
 theorem nextDown32_greatest (x y : UInt32) (hx : isFinite32 x = true) (hy : isNaN32 y = false) :
     flt32 (nextDown32 x) x = true ∧ (flt32 y x = true → fle32 y (nextDown32 x) = true) := by
-  unfold nextDown32 fle32 flt32 feq32 isFinite32 isZero32 sign32 mag32 isNaN32 qNaN32 at *; bv_decide
+  unfold nextDown32 fle32 flt32 feq32 isFinite32 isZero32 sign32 mag32 isNaN32 qNaN32 at *; bv_decide (config := { timeout := 180 })
 
 theorem nextUp32_twos (x : UInt32) (hx : isNaN32 x = false) (hi : (x == 0x7F800000) = false) :
     toTwos32 (nextUp32 x) = toTwos32 x + 1 ∧ isNaN32 (nextUp32 x) = false ∧
       (toTwos32 x == 0x7FFFFFFF) = false := by
-  unfold nextUp32 toTwos32 isZero32 sign32 mag32 isNaN32 qNaN32 at *; bv_decide
+  unfold nextUp32 toTwos32 isZero32 sign32 mag32 isNaN32 qNaN32 at *; bv_decide (config := { timeout := 180 })
 
 theorem nextDown32_twos (x : UInt32) (hx : isNaN32 x = false) (hi : (x == 0xFF800000) = false) :
     toTwos32 (nextDown32 x) = toTwos32 x - 1 ∧ isNaN32 (nextDown32 x) = false ∧
       (toTwos32 x == 0x80000000) = false := by
-  unfold nextDown32 toTwos32 isZero32 sign32 mag32 isNaN32 qNaN32 at *; bv_decide
+  unfold nextDown32 toTwos32 isZero32 sign32 mag32 isNaN32 qNaN32 at *; bv_decide (config := { timeout := 180 })
 
 theorem ne_of_beq_false32 {a b : UInt32} (h : (a == b) = false) : a.toBitVec.toInt ≠ b.toBitVec.toInt := by
   intro e
@@ -134,20 +134,20 @@ theorem nextDownN32_key (n : Nat) : ∀ x : UInt32, isNaN32 x = false → -21390
 /-- the libm model (Sun's integer algorithm) = the C11 specification, for all pairs of patterns -/
 theorem nextafter32_eq_spec (x y : UInt32) : nextafter32 x y = nextafterSpec32 x y := by
   unfold nextafter32 nextafterSpec32 nextUp32 nextDown32 feq32 flt32 isZero32 sign32 mag32 isNaN32 qNaN32
-  bv_decide
+  bv_decide (config := { timeout := 180 })
 
 /-! `detail::float_t<float>` -/
 
 theorem ftNegative32_eq (x : UInt32) : ftNegative32 x = sign32 x := by
-  unfold ftNegative32 sign32; bv_decide
+  unfold ftNegative32 sign32; bv_decide (config := { timeout := 180 })
 theorem ftMantissa32_eq (x : UInt32) : ftMantissa32 x = x &&& 0x007FFFFF := by
-  unfold ftMantissa32; bv_decide
+  unfold ftMantissa32; bv_decide (config := { timeout := 180 })
 theorem ftExponent32_eq (x : UInt32) : ftExponent32 x = (x >>> 23) &&& 0xFF := by
-  unfold ftExponent32; bv_decide
+  unfold ftExponent32; bv_decide (config := { timeout := 180 })
 /-- sign, exponent and mantissa reassemble to the pattern: the accessors lose nothing -/
 theorem float_t32_fields (x : UInt32) :
     ((if ftNegative32 x then (1 : UInt32) else 0) <<< 31) ||| (ftExponent32 x <<< 23) ||| ftMantissa32 x = x := by
-  unfold ftNegative32 ftExponent32 ftMantissa32; bv_decide
+  unfold ftNegative32 ftExponent32 ftMantissa32; bv_decide (config := { timeout := 180 })
 
 -- non-vacuity
 example : isFinite32 0x3F800000 = true ∧ isNaN32 0x3F800001 = false ∧ flt32 0x3F800000 0x3F800001 = true := by decide
@@ -161,7 +161,7 @@ example : ftNegative32 0xBF800000 = true ∧ ftExponent32 0xBF800000 = ((0x3F800
 
 theorem flt64_iff_twos_slt (x y : UInt64) (hx : isNaN64 x = false) (hy : isNaN64 y = false) :
     flt64 x y = (toTwos64 x).toBitVec.slt (toTwos64 y).toBitVec := by
-  unfold flt64 toTwos64 sign64 mag64 isNaN64 at *; bv_decide
+  unfold flt64 toTwos64 sign64 mag64 isNaN64 at *; bv_decide (config := { timeout := 180 })
 
 /-- on non-NaN patterns IEEE `<` is `<` of the integer keys -/
 theorem ordKey64_lt_iff (x y : UInt64) (hx : isNaN64 x = false) (hy : isNaN64 y = false) :
@@ -170,7 +170,7 @@ theorem ordKey64_lt_iff (x y : UInt64) (hx : isNaN64 x = false) (hy : isNaN64 y 
 
 theorem feq64_iff_twos_eq (x y : UInt64) (hx : isNaN64 x = false) (hy : isNaN64 y = false) :
     feq64 x y = (toTwos64 x == toTwos64 y) := by
-  unfold feq64 toTwos64 sign64 mag64 isNaN64 at *; bv_decide
+  unfold feq64 toTwos64 sign64 mag64 isNaN64 at *; bv_decide (config := { timeout := 180 })
 
 /-- IEEE `==` (with −0 = +0) is equality of the keys -/
 theorem ordKey64_eq_iff (x y : UInt64) (hx : isNaN64 x = false) (hy : isNaN64 y = false) :
@@ -185,22 +185,22 @@ theorem ordKey64_eq_iff (x y : UInt64) (hx : isNaN64 x = false) (hy : isNaN64 y 
 /-- IEEE nextUp is "the smallest representable value greater than x" -/
 theorem nextUp64_least (x y : UInt64) (hx : isFinite64 x = true) (hy : isNaN64 y = false) :
     flt64 x (nextUp64 x) = true ∧ (flt64 x y = true → fle64 (nextUp64 x) y = true) := by
-  unfold nextUp64 fle64 flt64 feq64 isFinite64 isZero64 sign64 mag64 isNaN64 qNaN64 at *; bv_decide
+  unfold nextUp64 fle64 flt64 feq64 isFinite64 isZero64 sign64 mag64 isNaN64 qNaN64 at *; bv_decide (config := { timeout := 180 })
 
 /-- IEEE nextDown is "the largest representable value smaller than x" -/
 theorem nextDown64_greatest (x y : UInt64) (hx : isFinite64 x = true) (hy : isNaN64 y = false) :
     flt64 (nextDown64 x) x = true ∧ (flt64 y x = true → fle64 y (nextDown64 x) = true) := by
-  unfold nextDown64 fle64 flt64 feq64 isFinite64 isZero64 sign64 mag64 isNaN64 qNaN64 at *; bv_decide
+  unfold nextDown64 fle64 flt64 feq64 isFinite64 isZero64 sign64 mag64 isNaN64 qNaN64 at *; bv_decide (config := { timeout := 180 })
 
 theorem nextUp64_twos (x : UInt64) (hx : isNaN64 x = false) (hi : (x == 0x7FF0000000000000) = false) :
     toTwos64 (nextUp64 x) = toTwos64 x + 1 ∧ isNaN64 (nextUp64 x) = false ∧
       (toTwos64 x == 0x7FFFFFFFFFFFFFFF) = false := by
-  unfold nextUp64 toTwos64 isZero64 sign64 mag64 isNaN64 qNaN64 at *; bv_decide
+  unfold nextUp64 toTwos64 isZero64 sign64 mag64 isNaN64 qNaN64 at *; bv_decide (config := { timeout := 180 })
 
 theorem nextDown64_twos (x : UInt64) (hx : isNaN64 x = false) (hi : (x == 0xFFF0000000000000) = false) :
     toTwos64 (nextDown64 x) = toTwos64 x - 1 ∧ isNaN64 (nextDown64 x) = false ∧
       (toTwos64 x == 0x8000000000000000) = false := by
-  unfold nextDown64 toTwos64 isZero64 sign64 mag64 isNaN64 qNaN64 at *; bv_decide
+  unfold nextDown64 toTwos64 isZero64 sign64 mag64 isNaN64 qNaN64 at *; bv_decide (config := { timeout := 180 })
 
 theorem ne_of_beq_false64 {a b : UInt64} (h : (a == b) = false) : a.toBitVec.toInt ≠ b.toBitVec.toInt := by
   intro e
@@ -275,20 +275,20 @@ theorem nextDownN64_key (n : Nat) : ∀ x : UInt64, isNaN64 x = false → -92188
 /-- the libm model (Sun's integer algorithm) = the C11 specification, for all pairs of patterns -/
 theorem nextafter64_eq_spec (x y : UInt64) : nextafter64 x y = nextafterSpec64 x y := by
   unfold nextafter64 nextafterSpec64 nextUp64 nextDown64 feq64 flt64 isZero64 sign64 mag64 isNaN64 qNaN64
-  bv_decide
+  bv_decide (config := { timeout := 180 })
 
 /-! `detail::float_t<double>` -/
 
 theorem ftNegative64_eq (x : UInt64) : ftNegative64 x = sign64 x := by
-  unfold ftNegative64 sign64; bv_decide
+  unfold ftNegative64 sign64; bv_decide (config := { timeout := 180 })
 theorem ftMantissa64_eq (x : UInt64) : ftMantissa64 x = x &&& 0x000FFFFFFFFFFFFF := by
-  unfold ftMantissa64; bv_decide
+  unfold ftMantissa64; bv_decide (config := { timeout := 180 })
 theorem ftExponent64_eq (x : UInt64) : ftExponent64 x = (x >>> 52) &&& 0x7FF := by
-  unfold ftExponent64; bv_decide
+  unfold ftExponent64; bv_decide (config := { timeout := 180 })
 /-- sign, exponent and mantissa reassemble to the pattern: the accessors lose nothing -/
 theorem float_t64_fields (x : UInt64) :
     ((if ftNegative64 x then (1 : UInt64) else 0) <<< 63) ||| (ftExponent64 x <<< 52) ||| ftMantissa64 x = x := by
-  unfold ftNegative64 ftExponent64 ftMantissa64; bv_decide
+  unfold ftNegative64 ftExponent64 ftMantissa64; bv_decide (config := { timeout := 180 })
 
 -- non-vacuity
 example : isFinite64 0x3FF0000000000000 = true ∧ isNaN64 0x3FF0000000000001 = false ∧ flt64 0x3FF0000000000000 0x3FF0000000000001 = true := by decide
